@@ -269,20 +269,16 @@ class FixedArray
     template <class S>
     explicit FixedArray(const FixedArray<S> &other)
         : _ptr(0), _length(other.len()), _stride(1), _writable(true),
-          _handle(), _unmaskedLength(other.unmaskedLength())
+          _handle(), _unmaskedLength(0)
     {
+        // The converted copy owns dense storage of exactly len() elements
+        // (other[i] already follows other's mask), so it must not inherit
+        // other's mask indices: they refer to other's unmasked storage and
+        // would index past the end of this allocation.
         boost::shared_array<T> a(new T[_length]);
         for (size_t i=0; i<_length; ++i) a[i] = T(other[i]);
         _handle = a;
         _ptr = a.get();
-
-        if (_unmaskedLength)
-        {
-            _indices.reset(new size_t[_length]);
-
-            for (size_t i = 0; i < _length; ++i)
-                _indices[i] = other.raw_ptr_index(i);
-        }
     }
 
     FixedArray(const FixedArray &other)
